@@ -24,6 +24,7 @@ EXPLANATION = (
     'difference from what that same reader was last given.')
 EXPLANATION += ' C17.R1 also requires RemoveCallback to compare every field AddCallback stores. C17.R5 (decision tables by conditional constant propagation over the enumerators): an explicit Sum view gives each instrument type the monotonicity the default selection gives it; MetricCollector::GetAggregationTemporality returns cumulative on every path for (delta, synchronous gauge).'
 ROUND2_EXPLANATION = (' C17.R8: every local of an ObserverResult type used in the callback loop of ObservableRegistry::Observe is created inside the iteration that uses it (strict). Shared C06.R9: folding accumulates.')
+ROUND2_EXPLANATION += (' C17.R4 also: the value stored into the per-collector delta table is the result of the Diff call itself, not one of its operands.')
 EXPLANATION += ROUND2_EXPLANATION
 NOT_DECIDED = 'numeric deltas across readers over arbitrary histories.'
 
